@@ -120,6 +120,31 @@ def classify(msg):
     return "+".join(codes) or "noerrcode", first
 
 
+def signature(msg, code):
+    """what the first diagnostic with this error code is about, without declaration names"""
+    m = re.search(r"error\[%s\]: ([^\n]*)\n((?:(?!\nerror).)*)" % code, msg, re.S)
+    if not m:
+        return "-"
+    head, body = m.group(1), m.group(2)[:3000]
+    if code == "E0080":
+        a = re.search(r'\["(Size|Alignment|Offset) of', body)
+        return {"Size": "size-assert", "Alignment": "align-assert", "Offset": "offset-assert"}.get(a.group(1), "-") if a else "-"
+    if code == "E0277":
+        t = re.search(r"the trait `([A-Za-z]+)(?:<[^`]*>)?` is not implemented for `([^`]*)`", head + body) or \
+            re.search(r"`([^`]*)` doesn't implement `([A-Za-z]+)", head + body)
+        trait, ty = "-", ""
+        if t and "doesn't implement" in t.group(0):
+            ty, trait = t.group(1), t.group(2)
+        elif t:
+            trait, ty = t.group(1), t.group(2)
+        elif "can't compare" in head:
+            trait = "PartialOrd" if "<" in body[:2000] and "no implementation for `" in body and " < " in body else "PartialEq"
+            ty = (re.search(r"can't compare `([^`]*)`", head) or [None, ""])[1]
+        h = re.search(r"__Bindgen[A-Za-z]+|__IncompleteArrayField", ty)
+        return "%s:%s" % (trait, h.group(0) if h else "other")
+    return "-"
+
+
 def compile_all(res, w, entries, label):
     """entries: list of (key-prefix, detail, text, edition). Batched per edition, bisected on failure."""
     from checks.c09 import rustc_batch
@@ -131,14 +156,18 @@ def compile_all(res, w, entries, label):
         bad, msg = rustc_batch([e[2] for e in es], w, "%s-%s" % (label, ed), edition=ed)
         n += len(es)
         for k in bad:
-            _, m1 = rustc_batch([es[k][2]], w, "%s-single" % label, edition=ed)
+            bad1, m1 = rustc_batch([es[k][2]], w, "%s-single" % label, edition=ed)
+            if not bad1:
+                # compiles on its own: the failure inside the batch was not about this module
+                res.notes.append("module %s failed only inside a batch; compiles alone" % es[k][1].get("case"))
+                continue
             codes, first = classify(m1)
             d = dict(es[k][1])
             d["rustc"] = m1[-1500:]
             # one module can show several independent defects: one violation per error code, so that
             # each is matched (or not) on its own
             for code in codes.split("+"):
-                res.violation("%s:%s" % (es[k][0], code), d)
+                res.violation("%s:%s:%s" % (es[k][0], code, signature(m1, code)), d)
     return n
 
 
